@@ -180,9 +180,26 @@ def job_c15(job):
     try:
         kw = job.get("py_kw") or {}
         sc, ap = gen_py_script(job["py_values"], force=tuple(kw.get("force") or ()), cfg=kw.get("cfg"))
+        reuse = job.get("reuse") or []
+        # earlier, separate generator objects (or an interpreter) that were given these very description
+        # objects: the description must come out of them as it went in
+        for r in reuse:
+            try:
+                if r == "py":
+                    python_text(sc, ap, job.get("order_seed"), job.get("id_salt"))
+                elif r == "py_plain":
+                    python_text(sc, ap, None, None)
+                elif r == "interp":
+                    interp_log(sc, ap, None)
+            except Exception:
+                pass
         out["python"] = python_text(sc, ap, job.get("order_seed"), job.get("id_salt"))
         if job.get("want_interp", True):
-            out["interp"] = interp_log(sc, ap, job.get("order_seed"))
+            if "interp_shared" in reuse:
+                out["interp"] = interp_log(sc, ap, job.get("order_seed"))
+            else:
+                sc_i, ap_i = gen_py_script(job["py_values"], force=tuple(kw.get("force") or ()), cfg=kw.get("cfg"))
+                out["interp"] = interp_log(sc_i, ap_i, job.get("order_seed"))
     except Exception as e:
         out["python_exc"] = "%s: %s" % (type(e).__name__, "".join(traceback.format_exception_only(type(e), e))[:300])
     if job.get("extra_py"):
@@ -198,6 +215,11 @@ def job_c15(job):
     if job.get("f_values") is not None:
         try:
             scf, apf = gen_f_script(job["f_values"])
+            if "fortran" in (job.get("reuse") or []):
+                try:
+                    fortran_text(scf, apf, None, None)
+                except Exception:
+                    pass
             out["fortran"] = fortran_text(scf, apf, job.get("order_seed"), job.get("id_salt"))
         except Exception as e:
             out["fortran_exc"] = type(e).__name__ + ":" + str(e)[:120]
